@@ -969,6 +969,10 @@ func c04JwtLayer(t *testing.T, layer string, gates, seqMin, seqMax int) {
 			m.Count("jwt."+layer+".gates_with_prev_secret", 1)
 		}
 		_ = ok
+		if m.ViolCount() > 30 {
+			m.Note("stopped after %d violating sequences", m.ViolCount())
+			break
+		}
 		if idx%5 == 0 {
 			m.Progress()
 		}
